@@ -101,13 +101,13 @@ DBG_T = [(4, sp) for sp in (0, 1, 2, 3)]   # specs 4, 5 ({:#?}, {:+#010?}) excee
 add('s_cmp', 'debug_fmt', ['C13', 'C07', 'C04'], lambda n, sp: 19, pairs=(DBG_Q, DBG_T))
 
 # ---------------------------------------------------------------- byte-stream I/O (s_io)
-IO_Q = [(n, 2) for n in (0, 1, 2, 3, 4)]
-IO_T = [(n, 3) for n in (0, 1, 2, 3)] + [(5, 2)]
-add('s_io', 'io_std', ['C14', 'C11'], lambda n, k: 18, pairs=(IO_Q, IO_T), feat='feature = "std"')
-add('s_io', 'io_eio', ['C16'], lambda n, k: 18, pairs=(IO_Q, IO_T), feat='feature = "eio"', configs=['eio', 'eio-both'])
-add('s_io', 'io_eio_async', ['C16'], lambda n, k: 18, pairs=(IO_Q, IO_T), feat='feature = "eio-async"',
+IO_Q = [(n, 1) for n in (0, 1, 2, 3, 4)]          # one step from any state (inductive, like C01)
+IO_T = [(n, 2) for n in (0, 1, 2, 3)] + [(5, 1)]   # explicit two-step sequences as a cross-check
+add('s_io', 'io_std', ['C14', 'C11'], lambda n, k: 2 * n + 5, pairs=(IO_Q, IO_T), feat='feature = "std"')
+add('s_io', 'io_eio', ['C16'], lambda n, k: 2 * n + 5, pairs=(IO_Q, IO_T), feat='feature = "eio"', configs=['eio', 'eio-both'])
+add('s_io', 'io_eio_async', ['C16'], lambda n, k: 2 * n + 5, pairs=(IO_Q, IO_T), feat='feature = "eio-async"',
     configs=['eio-async', 'eio-both'])
-add('s_io', 'io_pair_eio', ['C16'], lambda n: 18, qn=[0, 1, 2, 3], tn=[4], feat='all(feature = "eio", feature = "std")',
+add('s_io', 'io_pair_eio', ['C16'], lambda n: 2 * n + 5, qn=[0, 1, 2, 3], tn=[4], feat='all(feature = "eio", feature = "std")',
     configs=['eio'])
 
 # ---------------------------------------------------------------- ZST / extreme capacities (s_zst)
@@ -125,25 +125,33 @@ TWO_Q = [(1, op) for op in range(20)] + [(2, op) for op in range(20) if op != 13
 TWO_T = [(2, 13)] + [(3, op) for op in range(13)]
 add('s_two', 'two_buffers', ['C04'], lambda n, g: (n + 4 if g not in (13,) else 10), pairs=(TWO_Q, TWO_T), stubs=[ROT])
 
+def natural(fn):
+    """the unwind formula under which the scenario was first registered"""
+    for sc in SCENARIOS:
+        if sc.fn == fn and sc.pairs is None:
+            return sc.unwind
+    raise KeyError(fn)
+
+
 # ---------------------------------------------------------------- C17: no allocation (allocator entry points stubbed to panic)
 C17_CFG = ['nodefault', 'alloc', 'default']
 C17_N = [3]
 for fn in ('push_back', 'push_front', 'try_push_back', 'try_push_front', 'pop_back', 'pop_front', 'remove', 'swap',
            'swap_remove_back', 'swap_remove_front', 'truncate_back', 'truncate_front', 'clear', 'extend', 'fill', 'fill_spare',
            'fill_with', 'fill_spare_with'):
-    add('s_mut', fn, ['C17'], U(2, 4), qn=C17_N, tn=[0, 1, 4], stubs=NOALLOC, configs=C17_CFG)
+    add('s_mut', fn, ['C17'], natural(fn), qn=C17_N, tn=[0, 1, 4], stubs=NOALLOC, configs=C17_CFG)
 add('s_mut', 'extend_from_slice', ['C17'], lambda n: max(2 * n + 4, 15), qn=C17_N, tn=[0, 1, 4], stubs=NOALLOC, configs=C17_CFG)
 add('s_mut', 'make_contiguous', ['C17'], U(1, 4), qn=C17_N, tn=[0, 1, 4], stubs=NOALLOC + [ROT], configs=C17_CFG)
 for mod, fn in (('s_view', 'views'), ('s_view', 'view_mut'), ('s_view', 'view_mut_distinct'), ('s_iter', 'iter_script'),
                 ('s_iter', 'iter_mut_script'), ('s_iter', 'into_iter_script'), ('s_drain', 'drain'), ('s_drain', 'drain_forget'),
                 ('s_ctor', 'ctor_new'), ('s_ctor', 'from_iter'), ('s_ctor', 'clone_buf'), ('s_ctor', 'clone_from'),
                 ('s_cmp', 'ord_buffers'), ('s_cmp', 'hash_layout')):
-    add(mod, fn, ['C17'], U(2, 5), qn=C17_N, tn=[0, 1, 4], stubs=NOALLOC, configs=C17_CFG)
+    add(mod, fn, ['C17'], natural(fn), qn=C17_N, tn=[0, 1, 4], stubs=NOALLOC, configs=C17_CFG)
 add('s_ctor', 'from_array', ['C17'], lambda n, m: max(n, m) + 4, pairs=([(0, 2), (1, 3), (3, 2), (3, 5)], [(4, 7)]), stubs=NOALLOC, configs=C17_CFG)
 add('s_cmp', 'eq_buffers', ['C17'], lambda n, m: max(n, m) + 4, pairs=([(1, 3), (3, 3)], [(4, 3)]), stubs=NOALLOC, configs=C17_CFG)
 add('s_cmp', 'eq_slices', ['C17'], lambda n, k: max(n, k) + 4, pairs=([(3, 3)], [(4, 4)]), stubs=NOALLOC, configs=C17_CFG)
 add('s_cmp', 'debug_fmt', ['C17'], lambda n, sp: 19, pairs=([(3, 0)], [(3, 2)]), stubs=NOALLOC, configs=C17_CFG)
-add('s_io', 'io_std', ['C17'], lambda n, k: 18, pairs=([(3, 2)], [(4, 2)]), feat='feature = "std"', stubs=NOALLOC, configs=['default'])
+add('s_io', 'io_std', ['C17'], lambda n, k: 2 * n + 5, pairs=([(3, 1)], [(4, 1)]), feat='feature = "std"', stubs=NOALLOC, configs=['default'])
 # sensitivity witnesses: these must hit the stub
 add('s_ctor', 'alloc_witness_vec', ['C17'], U(0, 4), qn=[1], tn=[], stubs=NOALLOC, configs=C17_CFG, expect_fail='ALLOCATION')
 add('s_ctor', 'alloc_witness_to_vec', ['C17'], U(1, 4), qn=[3], tn=[], stubs=NOALLOC, configs=['alloc', 'default'],
@@ -157,17 +165,17 @@ C18_N = [1, 3]
 for fn in ('push_back', 'push_front', 'try_push_back', 'try_push_front', 'pop_back', 'pop_front', 'remove', 'swap',
            'swap_remove_back', 'swap_remove_front', 'truncate_back', 'truncate_front', 'clear', 'extend', 'fill', 'fill_spare',
            'fill_with', 'fill_spare_with'):
-    add('s_mut', fn, ['C18'], U(2, 4), qn=C18_N, tn=[0, 2, 4], mask='ALL', configs=C18_CFG)
+    add('s_mut', fn, ['C18'], natural(fn), qn=C18_N, tn=[0, 2, 4], mask='ALL', configs=C18_CFG)
 add('s_mut', 'extend_from_slice', ['C18'], lambda n: max(2 * n + 4, 15), qn=C18_N, tn=[0, 2, 4], mask='ALL', configs=C18_CFG)
 add('s_mut', 'make_contiguous', ['C18'], U(1, 4), qn=C18_N, tn=[0, 2, 4], stubs=[ROT], mask='ALL', configs=C18_CFG)
 for mod, fn in (('s_view', 'views'), ('s_view', 'view_mut'), ('s_view', 'view_mut_distinct'), ('s_iter', 'iter_script'),
                 ('s_iter', 'iter_mut_script'), ('s_iter', 'into_iter_script'), ('s_drain', 'drain'), ('s_drain', 'drain_forget'),
                 ('s_drain', 'drain_debug'), ('s_ctor', 'ctor_new'), ('s_ctor', 'from_iter'), ('s_ctor', 'clone_buf'),
                 ('s_ctor', 'clone_from'), ('s_ctor', 'into_iter_all'), ('s_cmp', 'ord_buffers'), ('s_cmp', 'hash_layout')):
-    add(mod, fn, ['C18'], U(2, 5), qn=C18_N, tn=[0, 2, 4], mask='ALL', configs=C18_CFG)
+    add(mod, fn, ['C18'], natural(fn), qn=C18_N, tn=[0, 2, 4], mask='ALL', configs=C18_CFG)
 add('s_ctor', 'from_array', ['C18'], lambda n, m: max(n, m) + 4, pairs=([(0, 2), (1, 3), (3, 2), (3, 5)], [(2, 5), (4, 7)]), mask='ALL', configs=C18_CFG)
 add('s_cmp', 'eq_buffers', ['C18'], lambda n, m: max(n, m) + 4, pairs=([(1, 3), (3, 3)], [(4, 3)]), mask='ALL', configs=C18_CFG)
-add('s_io', 'io_std', ['C18'], lambda n, k: 18, pairs=([(1, 2), (3, 2)], [(4, 2)]), feat='feature = "std"', mask='ALL', configs=C18_CFG)
+add('s_io', 'io_std', ['C18'], lambda n, k: 2 * n + 5, pairs=([(1, 1), (3, 1)], [(4, 1)]), feat='feature = "std"', mask='ALL', configs=C18_CFG)
 
 
 def nname(n):
